@@ -26,7 +26,7 @@ RIEMANNIAN = ("riem_scalar", "riem_diag", "riem_chol", "riem_dense", "riem_softa
 GENERIC_RIEMANNIAN = ("chol_upper", "lowrank_plus", "lowrank_minus", "dense_product", "dense_product_inner")
 CONST_METRICS = (
     "none", "identity", "scaled", "diag_array", "diag", "dense_array", "dense", "chol_lower", "chol_upper", "eig",
-    "block", "lowrank_plus", "lowrank_minus", "softabs_const", "product", "derived",
+    "block", "lowrank_plus", "lowrank_minus", "softabs_const", "product", "derived", "scaled_implicit", "identity_implicit",
 )
 DERIVED_BASES = ("dense", "chol_lower", "eig", "diag", "lowrank_plus", "block", "product", "softabs_const", "chol_upper")
 DERIVED_TEMPLATES = [["touch", "scale"], ["touch", "div"], ["inv", "scale"], ["touch", "inv", "rscale"], ["scale", "touch", "div"],
@@ -344,6 +344,11 @@ def _const_metric(kind: str, dim: int, rng):
     if kind == "scaled":
         s = float(rng.uniform(0.3, 3.0))
         return mm.PositiveScaledIdentityMatrix(s, dim), s * np.identity(dim)
+    if kind == "scaled_implicit":  # size left implicit (documented: takes the size of what it is multiplied with)
+        s = float(rng.uniform(0.3, 3.0))
+        return (mm.PositiveScaledIdentityMatrix(s) if rng.integers(0, 2) else s * mm.IdentityMatrix()), s * np.identity(dim)
+    if kind == "identity_implicit":
+        return mm.IdentityMatrix(), np.identity(dim)
     if kind in ("diag_array", "diag"):
         d = rng.uniform(0.3, 3.0, dim)
         return (d.copy() if kind == "diag_array" else mm.PositiveDiagonalMatrix(d.copy())), np.diag(d)
